@@ -1,11 +1,80 @@
-"""C03 — rules not implemented yet (fail closed)."""
-EXPLANATION = "not implemented"
-NOT_DECIDED = "everything"
+"""C03 — a map pixel shows the value of the loaded cell containing its sample point."""
+from __future__ import annotations
+
+from . import map_rules as mr
+
+EXPLANATION = (
+    "The equality pixel = value of the containing cell is a geometric statement over reals and is NOT decided. Decided are "
+    "necessary conditions: (R1) the kernel is evaluated symbolically: its single store into the output happens only under a "
+    "conjunction of closed containment tests |pixel_a - cell_a| <= half_size, one per available axis, for 1-, 2- and 3-D; "
+    "(R2) parallel-loop write classification: no read-modify-write on shared data inside prange, the plain store is guarded; "
+    "(R3) the pixel index window of a cell is (p -/+ c*half_size*sqrt(ndim) - lower_edge)/spacing with c >= 1, clamped to "
+    "[0, n_axis], the loops/axes/extents are paired and the output is NaN-initialised with shape (layers, nz, ny, nx); "
+    "(R4) limit analysis: every mask that narrows the cell index set in map() is not FALSE when the cell size tends to "
+    "infinity (such a cell contains the whole window); (R5) dependence analysis: each such mask depends on the cell size, "
+    "the window filter also on dx, dy (and dz); (R6) NaN -> mask, slot bookkeeping for vector layers; (R7) one length scale "
+    "for all kernel arguments, axis pairing x<->u, y<->v, z<->n of projections/edges/spacings/pixel positions, half cell size "
+    "passed; (R8) pixel-centre grid formulas as polynomial identities; (R9) for a bare normal the completed in-plane "
+    "vector is orthogonal to it and cannot vanish, and u x (n x u) is parallel to +n.")
+NOT_DECIDED = ("the equality of each pixel with the containing cell's value; soundness/tightness of the numeric coefficients "
+               "(0.6, half diagonal) beyond the limit and dependence conditions; float behaviour on cell faces; vector "
+               "projection values; matplotlib output")
+TRUSTED = ("CPython ast", "numba prange semantics", "osyris operator semantics (Vector - Array broadcasts) as modelled in sa/limits.py")
+TECHNIQUE = ("static analysis: symbolic (polynomial) evaluation of the numba kernel, parallel-loop write classification, "
+             "asymptotic-limit and dependence analyses of the pre-selection masks, formula identities")
 
 
-def not_implemented(run, tree):
-    run.rule("C03.R0", "stub")
-    run.unresolved("stub", "", "rules for C03 are not implemented yet")
+def r1(run, tree):
+    run.rule("C03.R1", "kernel writes only under full closed containment", "D1 symbolic kernel evaluation", "", floor=6)
+    mr.check_kernel_containment(run, tree)
 
 
-RULES = [not_implemented]
+def r2(run, tree):
+    run.rule("C03.R2", "schedule independence of the kernel", "parallel-loop write classification", "numba", floor=1)
+    mr.check_kernel_schedule(run, tree)
+
+
+def r3(run, tree):
+    run.rule("C03.R3", "footprint is conservative; axes, extents and output shape paired", "D1", "", floor=4)
+    mr.check_kernel_footprint(run, tree)
+
+
+def r4_r5(run, tree):
+    run.rule("C03.R4", "large-cell limit and dependences of every pre-selection mask (thin and thick mode)", "D5 limit + D4 dependence",
+             "", floor=8)
+    mr.check_preselection(run, tree, mr.MODES)
+
+
+def r6(run, tree):
+    run.rule("C03.R6", "NaN means 'no cell' end to end", "path rule", "", floor=3)
+    mr.check_nan_mask(run, tree)
+
+
+def r7(run, tree):
+    run.rule("C03.R7", "one length scale; axis pairing of the kernel arguments", "sibling agreement", "", floor=6)
+    mr.check_axis_pairing(run, tree)
+
+
+def r8(run, tree):
+    run.rule("C03.R8", "pixel-centre grid formulas", "D1 polynomial identities", "", floor=4)
+    mr.check_grid_formulas(run, tree, "xy")
+
+
+def r9(run, tree):
+    from .c18 import r3_perpendicular, r4_handedness
+    run.rule("C03.R9", "u and v span the plane normal to the requested direction (completion of a bare normal)",
+             "D1 rational identities (shared with C18.R3/R4)", "", floor=4)
+    cur = run.cur_rule
+    for fn in (r3_perpendicular, r4_handedness):
+        fn(run, tree)
+        # re-label the obligations recorded under the C18 rule ids
+    for o in run.obs:
+        if o.rule.startswith("C18."):
+            o.rule = "C03.R9"
+    for rid in [r for r in run.rules if r.startswith("C18.")]:
+        run.rules["C03.R9"]["instances"] += run.rules[rid]["instances"]
+        del run.rules[rid]
+    run.cur_rule = cur
+
+
+RULES = [r1, r2, r3, r4_r5, r6, r7, r8, r9]
